@@ -467,4 +467,25 @@ def parstressEngine (c i : List String) : Option Res := do
     | _ => none
   | _ => none
 
+/-- `seqorder`: the sequential solver with a custom sub-problem ranking (any processing order); only the outcome is observed.
+    case: `fam | cfg(4 parts) | mode` -/
+def seqorderEngine (c i : List String) : Option Res := do
+  match splitAt "|" c with
+  | famT :: p1 :: p2 :: p3 :: p4 :: _ =>
+    let (fam, _) ← parseFam famT
+    let cfg ← parseSCfg [p1, p2, p3, p4]
+    match splitAt "|" i with
+    | [ex, bv, lb, ub, _explored, _polls] :: solT :: _ =>
+      let lb ← int? lb; let ub ← int? ub
+      let value := bv.toInt?
+      let sol := if solT == ["none"] then none else if solT == ["e"] then some [] else (ints? solT).map parseDecs
+      -- best_upper_bound() is only meaningful for best-first pops: the bound clauses are not evaluated here
+      let pf := (phiSolver fam (cfg.kind == 2) cfg.primal false (ex == "1") value lb lb sol).filter (fun s => !(s.startsWith "C02:after"))
+      let pf := withFeatureFails cfg.cache fam.domRule.isSome pf
+      pure { agree := true, phi := pf.isEmpty, model := "(phi only)", note := failNote pf }
+    | [["hang"]] => pure { agree := true, phi := false, model := "-", note := "F:C01 [C01:the solver does not terminate with a custom sub-problem ranking (pop cap exceeded)] F:C09 [C09:the solver does not terminate with a custom sub-problem ranking (pop cap exceeded)]" }
+    | [["panic"]] => pure { agree := true, phi := false, model := "-", note := "F:C01 [C01:the solver panics with a custom sub-problem ranking]" }
+    | _ => none
+  | _ => none
+
 end Ddo.Engines
